@@ -147,7 +147,12 @@ void log_console_conf(bool enabled) { }
 long xv_heap_live;       /* ghost: ut_* heap blocks allocated and not yet freed */
 #define XV_LIVE_OK(c) ((c) >= 0 && (c) < (1L << 40))
 #define XV_LIVE_OK2(c) ((c) >= 0 && (c) < (1L << 41))   /* range for callees: room for the calls made before them */
-void *ut_malloc(size_t size) { void *p = malloc(size); __CPROVER_assume(p != NULL); xv_heap_live++; return p; }
+void *ut_malloc(size_t size)
+{
+    /* the only ut_malloc of ctx_store.c/item.c is cache_entry_create (cache_install): a mechanical witness of "helper entered with the lock held" */
+    __CPROVER_assert(xv_lk_held, "PO[C15] cache_entry_create.entered_with_the_cache_lock_held");
+    void *p = malloc(size); __CPROVER_assume(p != NULL); xv_heap_live++; return p;
+}
 void ut_free(void *ptr) { if (ptr != NULL) xv_heap_live--; free(ptr); }
 void ut_mem_exhausted(void) { abort(); }
 void ut_fatal(void) { abort(); }
